@@ -26,6 +26,7 @@ ASSUMPTIONS = [
     "searched rotations differ by >= 20 degrees so that candidates are separated by more than the interpolation error of the rotated templates",
     "brute-force comparison uses rotated templates built with scipy (order 3) outside the library; ties within 0.02 score are don't-care",
     "models ZNCC, PCC (thorough: NCC); FSC is not enumerated here: its unweighted mean over shells is dominated by shells that hold only interpolation noise of the rotated smooth templates (see C04 for the FSC data class)",
+    "added during the seeding waves: 125 / 375 candidates, Rotation objects, a tight bar mask for every rotation set, background offset, with_params entries, per-key template lists in a different order",
 ]
 
 SHAPE = (12, 12, 12)
